@@ -701,6 +701,34 @@ fn battery(env: &mut Env, before: &Book) -> Result<(), Verdict> {
     Ok(())
 }
 
+fn nested_cleanups_with_cut(t: &T) -> bool {
+    fn walk(t: &T, cleanups: &mut usize, cuts: &mut usize) {
+        match t {
+            T::Atom(a) if a == "!" => *cuts += 1,
+            T::Cmp(n, args) => {
+                match (n.as_str(), args.len()) {
+                    ("setup_call_cleanup", 3) | ("call_cleanup", 2) => *cleanups += 1,
+                    ("once", 1) | ("->", 2) | ("\\+", 1) | ("forall", 2) | ("findall", 3) => *cuts += 1,
+                    _ => {}
+                }
+                for a in args {
+                    walk(a, cleanups, cuts);
+                }
+            }
+            T::PList(items, tail) => {
+                for i in items {
+                    walk(i, cleanups, cuts);
+                }
+                walk(tail, cleanups, cuts);
+            }
+            _ => {}
+        }
+    }
+    let (mut c, mut k) = (0, 0);
+    walk(t, &mut c, &mut k);
+    c >= 2 && k >= 1
+}
+
 pub fn check(env: &mut Env, case: &Case) -> Verdict {
     let n = env.n;
     env.n += 1;
@@ -720,7 +748,11 @@ pub fn check(env: &mut Env, case: &Case) -> Verdict {
 
     // a goal with the shape of the open known finding gets a qualified signature (the generator
     // does not produce the shape; the witness replay has it)
-    let shape_cut = it.cut_directly_above_mark;
+    // ... and so does any goal in which two or more cleanup activations are nested around a construct
+    // that cuts (once/1, ->, \+, !): the reference interpreter's flag only recognises the narrowest
+    // form, but the outer cleanup is run early (and forgotten) in all of them -- same root cause
+    // ('$get_scc_cleaner' popping the outer handler on the cut path)
+    let shape_cut = it.cut_directly_above_mark || nested_cleanups_with_cut(&case.goal);
     let shape_failed = it.failed_cleanup_before_outer;
     let qualify = |v: Verdict| match v {
         // known finding: a failing cleanup ends the loop that runs the cleanups of one cut; the outer
